@@ -181,6 +181,10 @@ def run(rep):
         for c in G.split_cases(open(corpus).read()):
             ls = c.split("\n")
             workloads.insert(0, (ls[1], ls[2:-1]))
+    # one transaction that writes well over a thousand keys and commits (a commit is ONE key-value transaction, whatever its size)
+    nbigk = 1300
+    bkeytab = "keytab " + " ".join(("b%04d" % k).encode().hex() for k in range(nbigk))
+    workloads.append((bkeytab, ["set 0 1 1 3 s", "begin RC"] + ["set 1 %d %d 2 s" % (k, k + 1) for k in range(1, nbigk + 1)] + ["commit 1", "set 0 2 %d 3 s" % (nbigk + 5)]))
     total_points, checked, kinds, viol, rec_points = 0, 0, {}, 0, 0
     ev_mismatch = 0
     unobservable = 0
@@ -227,10 +231,22 @@ def run(rep):
                                        "micro-step table (DESIGN appendix A.2)", workload=ops, operation=op, events=evs,
                                        expected=exp or "[kv.txn] (remove kv.delete:fileContent kv.delete:file)*"), no_input=True)
         total_points += nev
+        points = range(1, nev + 1)
+        if nev > 400:
+            # a very large commit: every mutation cannot be a crash point; take the ones around each key-value
+            # transaction commit (a commit must be ONE of them) and a seeded sample of the others
+            flat = []
+            for a in acks:
+                flat += a.split("|", 1)[1].split()
+            near = set()
+            for j, e in enumerate(flat):
+                if e == "kv.txn":
+                    near |= {j, j + 1, j + 2}
+            points = sorted({n for n in near if 1 <= n <= nev} | set(rng.sample(range(1, nev + 1), 12)))
         with cf.ThreadPoolExecutor(max_workers=C.NCPU) as ex:
             futs = [ex.submit(crash_run, fsdbh, keytab, ops, nkeys, n,
                               (1 + (n % 3)) if (rep.tier == "thorough" or n % 4 == 0) else None)
-                    for n in range(1, nev + 1)]
+                    for n in points]
             results = [f.result() for f in futs]
         for r in results:
             if r.get("unobservable"):
@@ -288,6 +304,8 @@ def run(rep):
                                   "more operations and dies before its n-th mutation (or exits); a third process observes"),
         evaluations=checked, distinct_nontrivial=checked, crash_points_total=total_points, workloads=len(workloads),
         crash_points_by_mutation_kind=kinds, crash_points_inside_recovery=rec_points, exhaustive=True,
+        exhaustive_part="every persistent mutation of every workload except the one 1300-key commit workload, where the crash points are "
+                        "those around each key-value transaction commit plus a seeded sample of 12",
         rule="seeded workloads of 6-15 operations (autocommit and transactional writes, deletes, commits incl. conflicts, "
              "rollbacks, collections); for EVERY persistent mutation of the uncrashed run (mkdir, create, remove, Badger set / "
              "delete / transaction commit; counted through verifhook.Mut with one pool worker so the order is deterministic) the "
